@@ -17,11 +17,11 @@ def pairs(ck):
         tries += 1
         r = random.Random(ck.rng.getrandbits(48))
         hold = 0.0
-        if tries % 2 == 0:
+        if tries % 2 == 0 or tries == 1:
             # deep nesting: an aggregate reached directly and through a long chain of nested aggregates
             fam = 'deepnest'
-            depth = r.choice([5, 12, 40])
-            if r.random() < 0.5:
+            depth = r.choice([5, 12, 40]) if tries > 1 else 12
+            if r.random() < 0.5 or tries == 1:       # the first pair of every run is of shape (A), depth 12
                 # (A) late requester of an aggregate: all -> [group, d1], d1 -> ... -> dN -> [group], group -> [slow]; the slow
                 #     build is kept in progress until the requests travelling down the chain have arrived
                 T = {'slow': {'kind': 'build', 'deps': []}, 'group': {'kind': 'aggregate', 'deps': ['slow']}}
